@@ -3,6 +3,7 @@ package mboxprop
 import (
 	"bytes"
 	"context"
+	"crypto/sha512"
 	"errors"
 	"fmt"
 	"testing"
@@ -206,6 +207,39 @@ func (k *failingKey) ECDH(*btcec.PublicKey) ([32]byte, error) {
 	return [32]byte{}, errors.New("signer unavailable")
 }
 
+// checkSIDsAfterPairing: the identifiers after a real first pairing at the
+// negotiated handshake version v (the server's maximum): both parties derive
+// the same one - the key-derived one from version 2 on, still the passphrase
+// one below (no key is exchanged there) - and agree on the next pattern.
+func checkSIDsAfterPairing(seed uint64) string {
+	for v := 0; v <= 2; v++ {
+		cfg := hsConfig{Pattern: "XX", IMin: 0, IMax: 2, RMin: 0, RMax: v, Seed: seed + uint64(v), AuthLen: 20, PassMode: "same"}
+		p, err := established(cfg)
+		if err != nil {
+			return err.Error()
+		}
+		before := sha512.Sum512(p.passI)
+		si, e1 := sidOf(p.I.cd)
+		sr, e2 := sidOf(p.R.cd)
+		if e1+e2 != "" {
+			return e1 + e2
+		}
+		if si != sr {
+			return fmt.Sprintf("after a first pairing at handshake version %d (client supports 0..2, server 0..%d) client and server derive different SIDs: the client's send stream is no longer the server's receive stream", v, v)
+		}
+		if v >= 2 && si == before {
+			return "after a version-2 pairing the SID is still the passphrase SID"
+		}
+		if v < 2 && si != before {
+			return fmt.Sprintf("after a version-%d pairing (no static keys exchanged) the SID is no longer the passphrase SID", v)
+		}
+		if p.I.cd.HandshakePattern().Name != p.R.cd.HandshakePattern().Name {
+			return fmt.Sprintf("after a version-%d pairing the parties disagree on the next handshake pattern", v)
+		}
+	}
+	return ""
+}
+
 func runC17(c c17Case) string {
 	switch c.Kind {
 	case "entropy":
@@ -217,7 +251,14 @@ func runC17(c c17Case) string {
 		copy(w[:], c.Words)
 		return checkWords(w)
 	case "sid":
-		return checkSIDs(c.SeedA, c.SeedB)
+		if v := checkSIDs(c.SeedA, c.SeedB); v != "" {
+			return v
+		}
+		// one in eight SID cases also runs real pairings (three handshakes)
+		if c.SeedA%8 == 0 {
+			return checkSIDsAfterPairing(c.SeedA)
+		}
+		return ""
 	case "new":
 		w, e, err := mailbox.NewPassphraseEntropy()
 		if err != nil {
